@@ -569,6 +569,16 @@ impl<S: WebSocket, T: TimestampProvider> Task<S, T> {
                         // Peer does not respect the `rwnd` limit, this should not happen in normal circumstances.
                         // let's send `Reset`.
                         warn!("Peer does not respect `rwnd` limit, dropping stream");
+                        // `close_flow` resets the flow unless we have already sent `Finish` on
+                        // it; an overrun is answered with `Reset` in that case as well.
+                        let finish_sent = matches!(
+                            self.flows.read().get(&flow_id),
+                            Some(FlowSlot::Established(stream_data))
+                                if stream_data.finish_sent.load(Ordering::Acquire)
+                        );
+                        if finish_sent {
+                            send_rst();
+                        }
                         self.close_flow(flow_id, false);
                     }
                     Some(Err(TrySendError::Closed(()))) => {
